@@ -1470,6 +1470,9 @@ Proof.
   - rewrite Nat.min_r by lia. rewrite firstn_all2, skipn_all by lia. apply app_nil_r.
 Qed.
 
+Lemma zfirstn_zskipn_len {A} n (l : list A) : zfirstn n l ++ zskipn (zlen (zfirstn n l)) l = l.
+Proof. unfold zfirstn, zskipn, zlen. rewrite Nat2Z.id. apply firstn_skipn_len. Qed.
+
 Lemma parse_fv_buf data pol vbuf vpol pol1 : parse_fv data pol = Ok (vbuf, vpol, pol1) ->
   exists n, vbuf = zfirstn n data.
 Proof.
@@ -1506,6 +1509,104 @@ Proof.
     rewrite P.
     rewrite (Z.add_comm offset).
     rewrite <- (zskipn_zskipn _ offset buf) by (try apply zlen_nonneg; lia).
-    unfold zfirstn at 2 3, zskipn at 1, zlen.
-    rewrite Nat2Z.id. rewrite firstn_skipn_len. apply zfirstn_zskipn.
+    rewrite zfirstn_zskipn_len. apply zfirstn_zskipn.
+Qed.
+
+(* ------------------------------------------------------------------ *)
+(* parsing: the declared regions                                       *)
+(* ------------------------------------------------------------------ *)
+
+Definition declared_ok (img : bytes) (sl : list fregion) (r : region) : Prop :=
+  let fr := region_fr sl r in
+  region_ok sl r = true /\
+  region_buf r = sub (base_off fr) (end_off fr - base_off fr) img /\
+  fr_base fr <= fr_limit fr /\ base_off fr < zlen img /\ end_off fr <= zlen img /\
+  (match r with RGap _ _ => False | _ => True end).
+
+Lemma slot_here done fr rest : slot (done ++ fr :: rest) (zlen done) = fr.
+Proof. unfold slot, zlen. rewrite Nat2Z.id. apply nth_app_here. Qed.
+
+Lemma forallb_In {A} (p : A -> bool) l x : forallb p l = true -> In x l -> p x = true.
+Proof. intros F I. rewrite forallb_forall in F. auto. Qed.
+
+Lemma parse_regions_inv img nr frs : forall done pol rs pol',
+  length (done ++ frs) = 15%nat -> forallb fr_ok (done ++ frs) = true ->
+  parse_regions img (zlen img) nr frs (zlen done) pol = Ok (rs, pol') ->
+  Forall (declared_ok img (done ++ frs)) rs /\
+  count is_me rs <= (if zlen done <=? 1 then 1 else 0) /\
+  count is_bios rs <= (if zlen done <=? 0 then 1 else 0).
+Proof.
+  induction frs as [|fr rest IH]; intros done pol rs pol' LEN OKS H.
+  - cbn [parse_regions] in H. injection H as <- _. rewrite !count_nil.
+    split; [constructor|]. split; destruct (_ <=? _); lia.
+  - pose proof (zlen_nonneg done) as DN.
+    assert (A : done ++ fr :: rest = (done ++ [fr]) ++ rest) by (rewrite <- app_assoc; reflexivity).
+    assert (ZL : zlen (done ++ [fr]) = zlen done + 1) by (rewrite zlen_app, zlen_cons, zlen_nil; lia).
+    assert (REC : forall pol0 rs0 pol0',
+              parse_regions img (zlen img) nr rest (zlen done + 1) pol0 = Ok (rs0, pol0') ->
+              Forall (declared_ok img (done ++ fr :: rest)) rs0 /\
+              count is_me rs0 <= (if zlen done + 1 <=? 1 then 1 else 0) /\
+              count is_bios rs0 <= (if zlen done + 1 <=? 0 then 1 else 0)).
+    { intros pol0 rs0 pol0' H0. rewrite <- ZL in H0. rewrite A in *.
+      rewrite <- ZL. apply (IH (done ++ [fr]) pol0 rs0 pol0'); auto. }
+    assert (SK : forall pol0 rs0 pol0',
+              parse_regions img (zlen img) nr rest (zlen done + 1) pol0 = Ok (rs0, pol0') ->
+              Forall (declared_ok img (done ++ fr :: rest)) rs0 /\
+              count is_me rs0 <= (if zlen done <=? 1 then 1 else 0) /\
+              count is_bios rs0 <= (if zlen done <=? 0 then 1 else 0)).
+    { intros pol0 rs0 pol0' H0. destruct (REC _ _ _ H0) as (R1 & R2 & R3).
+      split; auto. split.
+      - destruct (zlen done + 1 <=? 1), (zlen done <=? 1); lia.
+      - destruct (zlen done + 1 <=? 0), (zlen done <=? 0); lia. }
+    cbn [parse_regions] in H.
+    destruct (negb (nr =? 0) && (nr <=? zlen done)).
+    { injection H as <- _. rewrite !count_nil. split; [constructor|]. split; destruct (_ <=? _); lia. }
+    destruct (fr_valid fr) eqn:V; cbn [negb] in H; [|eapply SK; eauto].
+    destruct (zlen img <=? base_off fr) eqn:B1; [eapply SK; eauto|].
+    destruct (zlen img <? end_off fr) eqn:B2; [eapply SK; eauto|].
+    apply bind_ok in H as ([r pol1] & Hr & H). apply bind_ok in H as ([more pol2] & Hm & H).
+    cbn [fst snd] in *. injection H as <- <-.
+    destruct (REC _ _ _ Hm) as (R1 & R2 & R3).
+    set (sl := done ++ fr :: rest) in *.
+    assert (FO : fr_ok fr = true).
+    { apply (forallb_In fr_ok sl); auto. unfold sl. apply in_or_app. right. left. reflexivity. }
+    pose proof (fr_ok_spec _ FO) as FO'.
+    assert (VL : fr_base fr <= fr_limit fr) by (unfold fr_valid in V; lia).
+    assert (ZB : zlen (sub (base_off fr) (end_off fr - base_off fr) img) = end_off fr - base_off fr).
+    { apply zlen_sub; unfold base_off, end_off in *; consts; lia. }
+    assert (SLOT : slot sl (zlen done) = fr) by apply slot_here.
+    assert (ILT : zlen done < 15).
+    { unfold sl in LEN. rewrite app_length in LEN. cbn [length] in LEN. unfold zlen. lia. }
+    assert (D : declared_ok img sl r /\ is_me r = (zlen done =? 1) /\ is_bios r = (zlen done =? 0)).
+    { destruct (zlen done =? ifd_type_bios) eqn:I0.
+      - assert (zlen done = 0) as Z0 by (consts; lia).
+        apply bind_ok in Hr as ([els p] & Hb & Hr). cbn [fst snd] in Hr. injection Hr as <- <-.
+        apply bios_parse_concat in Hb. cbn [is_me is_bios]. rewrite Z0. split; [|split; reflexivity].
+        unfold declared_ok. cbn [region_fr region_buf]. change ifd_type_bios with 0. rewrite <- Z0, SLOT.
+        repeat split; auto; try lia.
+        unfold region_ok. cbn [region_fr region_buf is_me]. change ifd_type_bios with 0.
+        rewrite <- Z0, SLOT, Hb, ZB, FO. lia.
+      - destruct (zlen done =? ifd_type_me) eqn:I1.
+        + assert (zlen done = 1) as Z1 by (consts; lia).
+          injection Hr as <- <-. rewrite Z1.
+          assert (X : exists fp fso, me_region (sub (base_off fr) (end_off fr - base_off fr) img) =
+                        RME (sub (base_off fr) (end_off fr - base_off fr) img) fp fso /\
+                        match fp with Some es => fso = fso_of es | None => fso = 0 end).
+          { unfold me_region. destruct (parse_fpt _); eauto. }
+          destruct X as (fp & fso & -> & FS). cbn [is_me is_bios]. split; [|split; reflexivity].
+          unfold declared_ok. cbn [region_fr region_buf]. change ifd_type_me with 1. rewrite <- Z1, SLOT.
+          repeat split; auto; try lia.
+          unfold region_ok. cbn [region_fr region_buf is_me]. change ifd_type_me with 1.
+          rewrite <- Z1, SLOT, ZB, FO. destruct fp; lia.
+        + injection Hr as <- <-. cbn [is_me is_bios].
+          assert (2 <= zlen done) by (consts; lia).
+          split; [|split; lia].
+          unfold declared_ok. cbn [region_fr region_buf]. rewrite SLOT.
+          repeat split; auto; try lia.
+          unfold region_ok. cbn [region_fr region_buf is_me]. rewrite SLOT, ZB, FO. consts. lia. }
+    destruct D as (D & DM & DB).
+    split; [constructor; auto|]. rewrite !count_cons, DM, DB.
+    split.
+    + destruct (zlen done =? 1) eqn:E1, (zlen done + 1 <=? 1), (zlen done <=? 1); lia.
+    + destruct (zlen done =? 0) eqn:E0, (zlen done + 1 <=? 0), (zlen done <=? 0); lia.
 Qed.
